@@ -189,6 +189,72 @@ func runC12(r *Run) {
 					rd.Violation(fn, instrPos(pc), "Process regardless of the read error", "a datagram that failed to read or decode is delivered (the message still holds the previous datagram's or partial content)")
 				}
 			}
+			// the reader leaves its loop only on the stop signal or when the agent is closed: no return is taken
+			// because a datagram failed to read or decode (a runt datagram must not end delivery for everybody)
+			if errV != nil {
+				var dep func(v ssa.Value, depth int) bool
+				dep = func(v ssa.Value, depth int) bool {
+					if v == errV {
+						return true
+					}
+					if depth > 8 || v == nil {
+						return false
+					}
+					switch x := v.(type) {
+					case *ssa.BinOp:
+						return dep(x.X, depth+1) || dep(x.Y, depth+1)
+					case *ssa.UnOp:
+						return dep(x.X, depth+1)
+					case *ssa.Phi:
+						for _, e := range x.Edges {
+							if dep(e, depth+1) {
+								return true
+							}
+						}
+					case *ssa.Call:
+						for _, a := range x.Call.Args {
+							if dep(a, depth+1) {
+								return true
+							}
+						}
+						if x.Call.IsInvoke() {
+							return dep(x.Call.Value, depth+1)
+						}
+					case *ssa.Extract:
+						return dep(x.Tuple, depth+1)
+					case *ssa.MakeInterface:
+						return dep(x.X, depth+1)
+					case *ssa.ChangeInterface:
+						return dep(x.X, depth+1)
+					case *ssa.ChangeType:
+						return dep(x.X, depth+1)
+					case *ssa.TypeAssert:
+						return dep(x.X, depth+1)
+					}
+					return false
+				}
+				for _, ret := range returnsOf(fn) {
+					for _, ec := range allEntryConds(ret.Block()) {
+						if !dep(ec.Cond, 0) {
+							continue
+						}
+						// the success edge of the nil test is the one place where the error may be looked at
+						cond, val := ec.Cond, ec.Val
+						for {
+							u, isU := cond.(*ssa.UnOp)
+							if !isU || u.Op != token.NOT {
+								break
+							}
+							cond, val = u.X, !val
+						}
+						if b, isB := cond.(*ssa.BinOp); isB && (b.Op == token.EQL || b.Op == token.NEQ) && (b.X == errV && isNilConst(b.Y) || b.Y == errV && isNilConst(b.X)) && (b.Op == token.EQL) == val {
+							continue
+						}
+						rd.Violation(fn, instrPos(ret), "reader stops on a read error", "the reader's goroutine returns depending on the error of ReadFrom: one datagram that fails to read or decode (a runt, garbage) ends the delivery of every later response")
+						break
+					}
+				}
+			}
 		}
 	}
 	rd.Done()
@@ -396,6 +462,9 @@ func runC12(r *Run) {
 	r.Borrow("C13", map[string]string{"C13.order": "C12.order"})
 	// the callback of Do runs inside the event handler, while the reader's reused Message still holds this datagram; Start removes/stops only the transaction it registered (shared with C10)
 	r.Borrow("C10", map[string]string{"C10.do": "C12.do", "C10.rollback": "C12.rollback"})
+	// the reader's buffer keeps its capacity from one datagram to the next: a response is never truncated because an
+	// earlier one was shorter (shared with C20)
+	r.Borrow("C20", map[string]string{"C20.retain": "C12.buffer"})
 }
 
 // structArgKey: key of field `name` of a struct-typed call argument (a load of a local alloc, or a parameter/value struct).
